@@ -18,4 +18,5 @@ func verifClientDeq()                               {}
 func verifClientLoopExit(which string)              {}
 func verifYield(point string)                       {}
 func verifHeldBytes(strms Streams) int              { return 0 }
+func verifResetMem(n int)                           {}
 func verifDispatchedCtx(id uint32, ctx interface{}) {}
